@@ -1,4 +1,8 @@
 """debug CLI: python -m mirsym.run <harness module> [name filter] [-v]"""
+import sys as _sys
+if hasattr(_sys, 'set_int_max_str_digits'):
+    _sys.set_int_max_str_digits(0)      # exact fractions with thousands of digits are ordinary here
+
 import sys, os, time, importlib
 sys.path.insert(0, os.path.dirname(os.path.dirname(os.path.abspath(__file__))))
 from mirsym.program import Program
